@@ -60,15 +60,18 @@ def load_known():
 # ---------------------------------------------------------------------- worker
 
 def _work(job):
-    kind, key, tier = job
+    kind, key, tier = job[:3]
+    only_case = job[3] if len(job) > 3 else None
     from .run import run_contract, run_lemma
     from .solve import to_smt2, solve_text
     w = get_world()
     t0 = time.time()
+    if kind == "audit":
+        return _work_audit(key)
     try:
         if kind == "contract":
             con = w.contracts[key]
-            fr = run_contract(w, con, tier)
+            fr = run_contract(w, con, tier, only_case=only_case)
         else:
             lem = [l for l in w.lemmas if l.name == key][0]
             fr = run_lemma(w, lem, tier)
@@ -77,6 +80,27 @@ def _work(job):
                 "trace": traceback.format_exc()[-1500:], "obligations": []}
     z3_ms = 20000 if tier == "quick" else 120000
     obs = []
+    if kind == "contract" and fr.status == "undecided" and "has no invariant" in fr.reason:
+        # a loop the contract does not know (the body changed): search for a counterexample by exact
+        # unrolling for short iterables; only refutations are kept, the function stays undecided
+        w.unroll = 2
+        try:
+            fr2 = run_contract(w, con, tier, only_case=only_case)
+        except Exception:  # noqa
+            fr2 = None
+        finally:
+            w.unroll = None
+        if fr2 is not None:
+            for o in fr2.obligations:
+                if not z3.is_expr(o.goal) or o.kind == "frame":
+                    continue
+                text = to_smt2(w.axioms_for(o.pc + [o.goal]), o.pc, o.goal)
+                _, v, be, secs, _ = solve_text((0, text, 10000, 0, False))
+                if v == "sat":
+                    obs.append({"oid": o.oid, "kind": o.kind, "label": o.label, "case": o.case, "exit": o.exit_text,
+                                "props": o.props, "clause": o.clause, "path": list(o.path), "verdict": "sat",
+                                "backend": be + "(bounded: loops without invariant unrolled, <=2 items)", "secs": round(secs, 4),
+                                "detail": "", "size": len(text), "outside_known": None, "extra": {}, "unrolled": 2})
     for i, o in enumerate(fr.obligations):
         goal = o.goal
         triv = z3.is_true(z3.simplify(goal)) if z3.is_expr(goal) else False
@@ -110,7 +134,7 @@ def _work(job):
                 break
             w.bound = N
             try:
-                fr2 = run_contract(w, con, tier) if kind == "contract" else run_lemma(w, lem, tier)
+                fr2 = run_contract(w, con, tier, only_case=only_case) if kind == "contract" else run_lemma(w, lem, tier)
             except Exception:  # noqa
                 fr2 = None
             finally:
@@ -138,6 +162,27 @@ def _work(job):
             "obligations": obs}
 
 
+def _work_audit(key):
+    a = [x for x in C.AUDITS if x.name == key][0]
+    t0 = time.time()
+    try:
+        extract.reset()
+        rows = a.fn()
+    except (Unsupported, ContractError) as e:
+        return {"kind": "audit", "key": key, "status": "undecided", "reason": "audit %s: %s" % (key, e), "obligations": []}
+    except Exception as e:  # noqa
+        return {"kind": "audit", "key": key, "status": "fault", "reason": "%s: %s" % (type(e).__name__, e),
+                "trace": traceback.format_exc()[-1500:], "obligations": []}
+    obs = []
+    for label, ok, detail in rows:
+        obs.append({"oid": "audit:%s#%s" % (key, label), "kind": "audit", "label": label, "case": "", "exit": "",
+                    "props": a.props, "clause": detail, "path": [], "verdict": "unsat" if ok else "sat",
+                    "backend": "ast-audit", "secs": 0.0, "detail": detail, "size": 0, "outside_known": None, "extra": {}})
+    return {"kind": "audit", "key": key, "status": "ok", "reason": "", "paths": 0, "cases": [], "gen_s": 0.0,
+            "wall_s": round(time.time() - t0, 3), "where": "", "sha": "", "externals": [], "callees": [], "covers": [],
+            "obligations": obs}
+
+
 # ---------------------------------------------------------------------- selection
 
 def select(prop, contracts, lemmas):
@@ -152,6 +197,10 @@ def select(prop, contracts, lemmas):
             sel.append(c)
     lem = [l for l in lemmas if prop in l.props]
     return sel, lem
+
+
+def select_audits(prop):
+    return [a for a in C.AUDITS if prop in a.props]
 
 
 # ---------------------------------------------------------------------- replay
@@ -175,7 +224,7 @@ def make_replay(w, prop, res, ob, tier):
             info["where"] = fsrc.where()
         except Exception:
             pass
-        fr = run_contract(w, con, tier)
+        fr = run_contract(w, con, tier, only_case=ob["case"] if ob.get("case") in con.cases else None)
     else:
         lem = [l for l in w.lemmas if l.name == res["key"]][0]
         info["function"] = {"file": "verif:lemma", "qualname": lem.name}
@@ -261,19 +310,29 @@ def run(prop, tier, seed, jobs=None):
     contracts, lemmas = load_contracts()
     w = get_world()
     sel, lems = select(prop, contracts, lemmas)
-    if not sel and not lems:
+    auds = select_audits(prop)
+    if not sel and not lems and not auds:
         print("no contract is tagged with %s" % prop)
         return 3
     procs = jobs or min(12, max(1, (os.cpu_count() or 4) - 2))
     results = {}
-    pending = [("contract", c.key, tier) for c in sel] + [("lemma", l.name, tier) for l in lems]
+    pending = [("contract", c.key, tier) for c in sel] + [("lemma", l.name, tier) for l in lems] + \
+              [("audit", a.name, tier) for a in auds]
     done_keys = set()
     ctx = mp.get_context("fork")
     while pending:
-        batch = [j for j in pending if (j[0], j[1]) not in done_keys]
+        batch0 = [j for j in pending if (j[0], j[1]) not in done_keys]
         pending = []
-        for j in batch:
+        batch = []
+        for j in batch0:
+            if (j[0], j[1]) in done_keys:
+                continue
             done_keys.add((j[0], j[1]))
+            if j[0] == "contract" and len(w.contracts[j[1]].cases) > 1:
+                # one job per type case: the cases of a function are independent
+                batch.extend((j[0], j[1], j[2], cn) for cn in w.contracts[j[1]].cases)
+            else:
+                batch.append(j)
         if not batch:
             break
         if len(batch) == 1 or procs == 1:
@@ -281,13 +340,39 @@ def run(prop, tier, seed, jobs=None):
         else:
             with ctx.Pool(min(procs, len(batch))) as pool:
                 outs = pool.map(_work, batch, chunksize=1)
+        if os.environ.get("PYVC_TIMING"):
+            for j, r in zip(batch, outs):
+                print("  job %s wall=%.1fs gen=%.1fs obs=%d" % (j[1:], r.get("wall_s") or 0, r.get("gen_s") or 0, len(r.get("obligations", []))))
+            print("  wave done at %.1fs" % (time.time() - t0))
         for r in outs:
-            results[(r["kind"], tuple(r["key"]) if isinstance(r["key"], (list, tuple)) else r["key"])] = r
+            rk = (r["kind"], tuple(r["key"]) if isinstance(r["key"], (list, tuple)) else r["key"])
+            if rk in results:
+                _merge(results[rk], r)
+            else:
+                results[rk] = r
             for callee in r.get("callees", []):
                 file, _, qn = callee.partition(":")
                 if (file, qn) in w.contracts and ("contract", (file, qn)) not in done_keys:
                     pending.append(("contract", (file, qn), tier))
     return report(prop, tier, seed, results, w, time.time() - t0, t0)
+
+
+def _merge(a, b):
+    """combine the per-case results of one function"""
+    order = {"fault": 3, "undecided": 2, "ok": 0}
+    if order.get(b["status"], 2) > order.get(a["status"], 2):
+        a["status"], a["reason"] = b["status"], b["reason"]
+        if "trace" in b:
+            a["trace"] = b["trace"]
+    a["obligations"] = a.get("obligations", []) + b.get("obligations", [])
+    for k in ("paths", "gen_s", "wall_s"):
+        a[k] = (a.get(k) or 0) + (b.get(k) or 0)
+    for k in ("cases", "covers"):
+        a[k] = list(a.get(k, [])) + [x for x in b.get(k, []) if x not in a.get(k, [])]
+    for k in ("externals", "callees"):
+        a[k] = sorted(set(a.get(k, [])) | set(b.get(k, [])))
+    for k in ("where", "sha"):
+        a[k] = a.get(k) or b.get(k, "")
 
 
 def report(prop, tier, seed, results, w, gen_wall, t0):
@@ -309,7 +394,7 @@ def report(prop, tier, seed, results, w, gen_wall, t0):
             undecided.append("%s: %s" % (r["key"], r["reason"]))
         if r["status"] == "ok" and not r["obligations"]:
             faults.append("%s: zero obligations generated (vacuous)" % (r["key"],))
-        functions.append({"function": "%s:%s" % tuple(r["key"]) if r["kind"] == "contract" else "lemma:%s" % r["key"],
+        functions.append({"function": "%s:%s" % tuple(r["key"]) if r["kind"] == "contract" else "%s:%s" % (r["kind"], r["key"]),
                           "where": r.get("where", ""), "sha": r.get("sha", ""), "cases": r.get("cases", []),
                           "paths": r.get("paths", 0), "obligations": len(r["obligations"]),
                           "exits_reached": len(r.get("covers", []))})
